@@ -255,3 +255,15 @@ func BadAppendCapturedCallerSlice(keep []int, n int) []int {
 	})
 	return acc
 }
+
+// ---- vacuity: an ASSUMED contract that contradicts itself must not prove the caller ----
+
+func oracle() *Box { return nil }
+
+func BadVacuousAfterAssumedContract() int {
+	b := oracle()
+	if b == nil {
+		return 1
+	}
+	return 2 // contract claims result == 3: "proved" only if the path after oracle() is dead
+}
